@@ -125,9 +125,16 @@ def build():
             "(token.source_start is None) == (token.source_end is None)",
             "implies(token.source_start is not None, 0 <= token.source_start and token.source_start <= token.source_end and token.source_end < _i)",
             "implies(len(token.token) > 0, token.source_start is not None)",
+            # spans of emitted tokens are ordered and do not overlap; the token being built starts after all of them
+            "forall(lambda k: implies(0 <= k and k + 1 < len(_yielded), _yielded[k].source_end < _yielded[k + 1].source_start))",
+            "implies(len(_yielded) > 0 and token.source_start is not None, _yielded[len(_yielded) - 1].source_end < token.source_start)",
+            # a token that has a position but no text yet can only exist inside a quoted section
+            "implies(token.source_start is not None and len(token.token) == 0, len(quote_context) > 0)",
+            "forall(lambda q: implies(0 <= q and q < len(quote_context), quote_context[q] in ('\"', \"'\", '`', ')', ']', '}', '%')))",
         ]}},
         ensures=[
             "forall(lambda k: implies(0 <= k and k < len(result), " + SPAN_OK.format(T="result[k]", HI="len(formula)") + "))",
+            "forall(lambda k: implies(0 <= k and k + 1 < len(result), result[k].source_end < result[k + 1].source_start))",
         ], props=["C14", "C15"])
     cs.append(tok)
     return reg, cs
